@@ -27,7 +27,7 @@ MOD=.
 for m in sequencers/single sequencers/based apps/testapp da core; do case "$FIRST" in $m/*) MOD=$m;; esac; done
 if [ -z "$PKG" ] || [ ! -d "$WT/$PKG" ]; then PKG=$(dirname "$FIRST"); fi
 PKG=${PKG#./}
-REL=${PKG#$MOD/}; [ "$MOD" = "." ] && REL=$PKG
+REL=${PKG#$MOD/}; [ "$MOD" = "." ] && REL=$PKG; [ "$PKG" = "$MOD" ] && REL=.
 TESTNAME=$(grep -ho '^func Test[A-Za-z0-9_]*' "$DEMO" | sed 's/func //' | paste -sd'|')
 cp "$DEMO" "$WT/$PKG/"
 echo "seed=$ID module=$MOD pkg=$PKG tests=$TESTNAME"
